@@ -13,7 +13,7 @@ import (
 // C16: every document is processed under a custom hasher while the *global default* is a poison hasher:
 // any silent fallback to the default changes an observable hash.
 func genC16(out *Out, r *Rng, tier string, n int, shard int) {
-	hss := []HSpec{hSalted(), hShifted(), hSmall(2305843009213693951), hSmall(65537), hPoseidon()}
+	hss := []HSpec{hSalted(), hShifted(), hSmallShared(2305843009213693951), hSmallShared(65537), hPoseidon()}
 	for i := 0; i < n; i++ {
 		hs := hss[i%len(hss)]
 		g := NewDocGen(r, 1+r.Intn(3))
@@ -101,6 +101,34 @@ func emitDerived(out *Out, g *DocGen, root *ANode, hs HSpec, r *Rng) {
 				}
 			}
 			nchecked++
+		}
+		// (g) values at and beyond the limits of the configured prime, through the merklizer's own value constructor: refused
+		// beyond, v or p+v inside - and a refusal changes nothing about what comes after
+		pr := hs.Prime
+		half := new(big.Int).Rsh(new(big.Int).Sub(pr, big.NewInt(1)), 1)
+		for _, tc := range []struct {
+			v    *big.Int
+			want *big.Int
+		}{{new(big.Int).Set(pr), nil}, {new(big.Int).Add(pr, big.NewInt(1)), nil}, {new(big.Int).Sub(new(big.Int).Neg(half), big.NewInt(1)), nil},
+			{new(big.Int).Sub(pr, big.NewInt(1)), new(big.Int).Sub(pr, big.NewInt(1))}, {new(big.Int).Neg(half), new(big.Int).Sub(pr, half)}, {big.NewInt(-1), new(big.Int).Sub(pr, big.NewInt(1))},
+			{new(big.Int).Lsh(pr, 3), nil}, {big.NewInt(0), big.NewInt(0)}} {
+			v5, err := mz.MkValue(tc.v)
+			var h5 *big.Int
+			if err == nil {
+				h5, err = v5.MtEntry()
+			}
+			if tc.want == nil && err == nil {
+				why = append(why, fmt.Sprintf("MkValue(%v) is outside the range of the configured prime %v but encodes as %v", tc.v, pr, h5))
+			}
+			if tc.want != nil && (err != nil || h5.Cmp(tc.want) != 0) {
+				why = append(why, fmt.Sprintf("MkValue(%v) under the configured prime %v gives %v (%v), expected %v", tc.v, pr, h5, err, tc.want))
+			}
+		}
+		if hs.H.Prime().Cmp(hs.Prime) != 0 {
+			why = append(why, fmt.Sprintf("the configured hasher's prime was %v and is now %v: the library modified the number the hasher handed out", hs.Prime, hs.H.Prime()))
+		}
+		if run2 := runMerklize(doc, hs, loader, true); run2.Err != nil || run2.Mz.Root().BigInt().Cmp(mz.Root().BigInt()) != 0 {
+			why = append(why, "the same document merklized again with the same hasher has another root (or fails)")
 		}
 		// (f) restored from bytes with the same hasher: same root; entries hash with the configured hasher
 		bs, err := mz.MarshalBinary()
